@@ -37,8 +37,8 @@ def anchors():
 def cases(seed, tier):
     q = tier == "quick"
     out = []
-    fams = ["mob"] * 4 + ["vor"] * 2 + ["arc"] * 2 + ["lat-square", "lat-brick", "lat-hex", "vor4", "mob4", "lat-tri", "lat-fan", "lat-diamond", "lat-rosette"]
-    n = 44 if q else 660
+    fams = ["mob"] * 4 + ["vor"] * 2 + ["arc"] * 2 + ["lat-square", "lat-brick", "lat-hex", "vor4", "mob4", "lat-tri", "lat-fan", "lat-diamond", "lat-rosette", "lat-tri", "lat-square"]
+    n = 57 if q else 760
     for i in range(n):
         out.append({"fam": fams[i % len(fams)], "seed": [seed, 2, i], "count": 3})
     for i in range(4 if q else 30):
@@ -246,6 +246,13 @@ def run_case(case):
             at = scen.base_tissue(rng, case["fam"])
             if not case["fam"].startswith("lat-"):
                 at, _s = scen.maybe_sub(rng, at, p=0.4)
+            elif case["fam"] not in ("lat-fan", "lat-rosette") and len(at.cells) > 4 and \
+                    np.random.default_rng([len(at.J), case["seed"][2], 2]).random() < 0.5:
+                # ragged rims: outline junctions of three or more cells that are pulled by outline AND internal interfaces
+                # (decided without touching the case's random stream)
+                sr = np.random.default_rng([len(at.cells), case["seed"][2], 5])
+                at = at.sub(tissue.random_connected_subset(sr, at, int(sr.integers(4, len(at.cells)))))
+                hist["lattice-sub-tissue"] = hist.get("lattice-sub-tissue", 0) + 1
             worst = max(worst, _one(rng, case["fam"], at, mon, sigs, hist))
     res = {"counters": dict(mon.evals), "hist": hist, "metrics": {"coef_err_over_eps": worst}}
     if mon.fails:
